@@ -38,7 +38,7 @@ def run(chk):
                           [_pass(chk.seed * 100 + k, 25000, f"rt(random#{k})") for k in range(8)])
     return vcheck.generic_run(chk, MODULES, AUDIT, passes,
         [PID + ": Model/{JsVal,RT,Validate,Parse,Report}.lean model codegen-v2.ts:34-2430 and err.ts by hand; property names outside the modelled vocabulary "
-         "on non-plain objects, lone surrogates, cyclic inputs, sparse arrays and getters are outside the model",
+         "on non-plain objects, lone surrogates, cyclic inputs and getters are outside the model; a hole of a sparse array is modelled as the `undefined` every read of it gives (the harness keeps real holes on the JavaScript side)",
          PID + ": Node stripTypeScriptTypes (types removed only); custom formats registered by the harness naming convention"],
         OPEN, RULE)
 
